@@ -10,7 +10,9 @@ for d in seeded/*-*; do
   p=${d#seeded/}; prop=${p%-*}
   [ -n "$sel" ] && { echo " $sel " | grep -q " $prop " || continue; }
   exp=$(python3 -c "import json;print(json.load(open('$d/meta.json')).get('detected_by_check'))")
-  out=$(tools/trymutant.sh /verif/$d/patch.diff $prop 2>&1)
+  # meta.json may name the checks that are expected to report the change ("checked_by"); default: its own property
+  by=$(python3 -c "import json;print(' '.join(json.load(open('$d/meta.json')).get('checked_by',['$prop'])))")
+  out=$(tools/trymutant.sh /verif/$d/patch.diff $by 2>&1)
   if echo "$out" | grep -q '^VIOLATION'; then got=True; else got=False; fi
   st=same; [ "$exp" = "$got" ] || { st=CHANGED; bad=1; }
   echo "$p expected_detected=$exp detected=$got $st $(echo "$out" | grep -c '^VIOLATION') violation line(s)"
